@@ -88,47 +88,62 @@ def to_dense(fmt, dims, indices, vals):
 
 
 def spec_concrete(assignment, inputs: dict, index_dims: dict):
-    """Mathematical value of the assignment at every target coordinate (exact rationals).
+    """Mathematical value of the assignment (exact rationals), computed sparsely: every monomial is
+    the join of the stored entries of its tensors, summed over its non-target indexes and broadcast
+    over the target indexes it lacks.  Returns {coordinate: value} for the coordinates that receive
+    a contribution; all other coordinates are 0 (``judge`` treats missing keys as 0).
     ``inputs[name] = (fmt, dims, indices, vals)``."""
     dense = {n: to_dense(*t) for n, t in inputs.items()}
     tix = assignment.target.indexes
-    result = {}
-    monos = specmod.monomials(assignment.expression)
-    for c in itertools.product(*[range(index_dims[i]) for i in tix]):
-        bind0 = dict(zip(tix, c))
-        total = Fraction(0)
-        for coef, ts in monos:
-            own = []
-            for t in ts:
-                for i in t.indexes:
-                    if i not in bind0 and i not in own:
-                        own.append(i)
-            for vs in itertools.product(*[range(index_dims[i]) for i in own]):
-                b = {**bind0, **dict(zip(own, vs))}
-                v = coef
-                for t in ts:
-                    v *= dense[t.name].get(tuple(b[i] for i in t.indexes), Fraction(0))
+    result: dict = {}
+    for coef, ts in specmod.monomials(assignment.expression):
+        if coef == 0:
+            continue
+        partial = [({}, coef)]
+        for t in ts:
+            nxt = []
+            for bind, val in partial:
+                for coord, v in dense[t.name].items():
                     if v == 0:
-                        break
-                total += v
-        result[c] = total
+                        continue
+                    b2 = dict(bind)
+                    ok = True
+                    for i, c in zip(t.indexes, coord):
+                        if b2.setdefault(i, c) != c:
+                            ok = False
+                            break
+                    if ok:
+                        nxt.append((b2, val * v))
+            partial = nxt
+        for bind, val in partial:
+            missing = [i for i in tix if i not in bind]
+            for vs in itertools.product(*[range(index_dims[i]) for i in missing]):
+                b = {**bind, **dict(zip(missing, vs))}
+                c = tuple(b[i] for i in tix)
+                result[c] = result.get(c, Fraction(0)) + val
     return result
 
 
 def support_concrete(assignment, inputs: dict, index_dims: dict, partial: dict) -> bool:
-    stored = {n: {c for c, _ in raw_entries(*t)} for n, t in inputs.items()}
+    """Structural support under a partial target coordinate: some tuple of *stored* entries (one per
+    tensor of a monomial) agrees on every shared index and with ``partial``."""
+    stored = {n: [c for c, _ in raw_entries(*t)] for n, t in inputs.items()}
     for coef, ts in specmod.monomials(assignment.expression):
         if not ts:
             return True
-        free = []
+        binds = [dict(partial)]
         for t in ts:
-            for i in t.indexes:
-                if i not in partial and i not in free:
-                    free.append(i)
-        for vs in itertools.product(*[range(index_dims[i]) for i in free]):
-            b = {**partial, **dict(zip(free, vs))}
-            if all(tuple(b[i] for i in t.indexes) in stored[t.name] for t in ts):
-                return True
+            nxt = []
+            for b in binds:
+                for coord in stored[t.name]:
+                    b2 = dict(b)
+                    if all(b2.setdefault(i, c) == c for i, c in zip(t.indexes, coord)):
+                        nxt.append(b2)
+            binds = nxt
+            if not binds:
+                break
+        if binds:
+            return True
     return False
 
 
